@@ -79,11 +79,11 @@ class StatusObserver:
 
 def h_submit(shapes=("chain3",), bss=(1, 2), maxns=(None, 1), tas=(True,), time_based=False, G=1, fails=True,
              cancel_flags=True, lost=False, local=False, procs=None, max_steps=60, max_recoveries=None, rcs=(0, 1),
-             hooks=False, est_choices=(1, 5), wall="0:10:00", dry_run=False, hook_rcs=(0,), aliases=None, round_yields=False, user_round=False, double_recovery=False):
+             hooks=False, est_choices=(1, 5), wall="0:10:00", dry_run=False, hook_rcs=(0,), aliases=None, round_yields=False, user_round=False, double_recovery=False, cpus=4):
     def harness(ex):
         from world.world import Hang
 
-        w = setup_world(ex)
+        w = setup_world(ex, cpus=cpus)
         try:
             _run(ex, w)
         except Hang as e:
